@@ -68,7 +68,7 @@ def validate(ctx, pool, which, module, trace, parts):
 
     def one(i):
         return ctx.tlc(module, module + ".cfg", workers=1, files={"trace.ndjson": paths[i]}, timeout=3000,
-                       name="%s trace validation %d" % (which, i), expect_violation=True, heap="4g")
+                       name="%s trace validation %d" % (which, i), expect_violation=True, heap="2g")
     results = list(pool.map(one, range(len(paths))))
     accepted = 0
     for i, tv in enumerate(results):
@@ -118,68 +118,68 @@ def drive(ctx, which, pkg, test, behs, nrandom):
 def run(ctx):
     th = ctx.thorough
     rnd = random.Random(ctx.seed)
-    pool = ThreadPoolExecutor(max_workers=8)
+    pool = ThreadPoolExecutor(max_workers=4)      # at most four JVMs / builds at a time
+    selftest = bool(os.environ.get("VERIF_SELFTEST"))  # mutation runs skip the jobs that do not touch the code
+    H = "2g"
+
+    def tlc(key, module, cfg, **kw):
+        kw.setdefault("heap", H)
+        kw.setdefault("timeout", 3000)
+        jobs[key] = pool.submit(ctx.tlc, module, cfg, **kw)
 
     # ---------------------------------------------------------------- 1. model checking
     jobs = {}
-    qmc = "RRQueue_mc_big.cfg" if th else "RRQueue_mc.cfg"
-    smc = "WSem_mc_big.cfg" if th else "WSem_mc.cfg"
-    jobs["qmc"] = pool.submit(ctx.tlc, "RRQueueMC", qmc, workers=8, timeout=3000 if th else 900, coverage=False,
-                              name="RRQueue exhaustive", constants={"cfg": qmc})
-    jobs["smc"] = pool.submit(ctx.tlc, "WSemMC", smc, workers=4, timeout=3000 if th else 900,
-                              name="WSem exhaustive", constants={"cfg": smc})
-    jobs["qlive"] = pool.submit(ctx.tlc, "RRQueueMC", "RRQueue_live.cfg", workers=2, timeout=900,
-                                name="RRQueue liveness (recycling queries, 3 users)")
-    jobs["slive"] = pool.submit(ctx.tlc, "WSemMC", "WSem_live.cfg", workers=2, timeout=900, name="WSem liveness")
-    if th:
-        jobs["qlive2"] = pool.submit(ctx.tlc, "RRQueueMC", "RRQueue_live_big.cfg", workers=4, timeout=3000,
-                                     name="RRQueue liveness (recycling queries, 2 users x 2)")
-    # behaviour export: every transition of a small instance + seeded simulation of a larger one
-    jobs["qbeh"] = pool.submit(ctx.tlc, "RRQueueMC", "RRQueue_beh_big.cfg" if th else "RRQueue_beh.cfg", workers=2,
-                               timeout=900, name="RRQueue behaviour export")
-    jobs["qsim"] = pool.submit(ctx.tlc, "RRQueueMC", "RRQueue_sim.cfg", simulate=(120 if th else 25, 70), timeout=900,
-                               name="RRQueue simulation export")
-    jobs["sbeh"] = pool.submit(ctx.tlc, "WSemMC", "WSem_beh.cfg", workers=2, timeout=900, name="WSem behaviour export")
-    jobs["ssim"] = pool.submit(ctx.tlc, "WSemMC", "WSem_sim.cfg", simulate=(120 if th else 25, 70), timeout=900,
-                               name="WSem simulation export")
-    # builds run meanwhile
+    # builds first (they are needed last, and run beside the model checker)
     jobs["qbuild"] = pool.submit(ctx.go_build_test, QPKG)
     jobs["sbuild"] = pool.submit(ctx.go_build_test, SPKG)
+    # behaviour export: every transition of a small instance + seeded simulation of a larger one
+    # (the export configurations also check the invariants: 3 users x 1 query / 3 acquirers exhaustively)
+    tlc("qbeh", "RRQueueMC", "RRQueue_beh_big.cfg" if th else "RRQueue_beh.cfg", workers=2, name="RRQueue behaviour export")
+    tlc("sbeh", "WSemMC", "WSem_beh_big.cfg" if th else "WSem_beh.cfg", workers=2, name="WSem behaviour export")
+    tlc("qsim", "RRQueueMC", "RRQueue_sim.cfg", simulate=(100 if th else 25, 70), name="RRQueue simulation export")
+    tlc("ssim", "WSemMC", "WSem_sim.cfg", simulate=(100 if th else 25, 70), name="WSem simulation export")
     vac = {}
-    if th:
+    if not selftest:
+        tlc("qmc", "RRQueueMC", "RRQueue_mc.cfg", workers=2, coverage=th, name="RRQueue exhaustive (2 users x 2 queries)",
+            constants={"cfg": "RRQueue_mc.cfg"})
+        tlc("smc", "WSemMC", "WSem_mc.cfg", workers=2, coverage=th, name="WSem exhaustive (3 acquirers)",
+            constants={"cfg": "WSem_mc.cfg"})
+        tlc("qlive", "RRQueueMC", "RRQueue_live.cfg", workers=2, name="RRQueue liveness (recycling queries, 3 users)")
+        tlc("slive", "WSemMC", "WSem_live_big.cfg" if th else "WSem_live.cfg", workers=2, name="WSem liveness")
+    if th and not selftest:
+        tlc("qmcbig", "RRQueueMC", "RRQueue_mc_big.cfg", workers=8, heap="8g", name="RRQueue exhaustive (3 users x 2 queries)",
+            constants={"cfg": "RRQueue_mc_big.cfg"})
+        tlc("smcbig", "WSemMC", "WSem_mc_big.cfg", workers=4, heap="4g", name="WSem exhaustive (4 acquirers)",
+            constants={"cfg": "WSem_mc_big.cfg"})
+        tlc("qlive2", "RRQueueMC", "RRQueue_live_big.cfg", workers=4, heap="4g",
+            name="RRQueue liveness (recycling queries, 2 users x 2)")
         # vacuity: the defective mechanisms must violate exactly the invariant that guards them
         for bug, inv in (("eq", "CapacityAtGrant"), ("noadj", "NoLostWakeup"), ("same", "RoundRobinFair"), ("lifo", "UserFIFO")):
-            txt = cfg_with(ctx, "RRQueue_mc.cfg", Bug='"%s"' % bug)
+            txt = cfg_with(ctx, "RRQueue_mc_big.cfg", Bug='"%s"' % bug)
             vac[("RRQueue", bug, inv)] = pool.submit(ctx.tlc, "RRQueueMC", "vac_q_%s.cfg" % bug, files={"vac_q_%s.cfg" % bug: txt},
-                                                     workers=2, timeout=900, record=False, expect_violation=True)
+                                                     workers=2, timeout=3000, record=False, expect_violation=True, heap=H)
         for bug, inv in (("lifo", "FIFO"), ("nonotify", "NoLostWakeup"), ("skip", "FIFO"), ("cancelkeep", None)):
             txt = cfg_with(ctx, "WSem_mc.cfg", Bug='"%s"' % bug)
             vac[("WSem", bug, inv)] = pool.submit(ctx.tlc, "WSemMC", "vac_s_%s.cfg" % bug, files={"vac_s_%s.cfg" % bug: txt},
-                                                  workers=2, timeout=900, record=False, expect_violation=True)
+                                                  workers=2, timeout=3000, record=False, expect_violation=True, heap=H)
         txt = cfg_with(ctx, "RRQueue_live.cfg", Bug='"same"').replace("INVARIANTS", "\\* INVARIANTS")
         vac[("RRQueue-liveness", "same", "property")] = pool.submit(
-            ctx.tlc, "RRQueueMC", "vac_ql.cfg", files={"vac_ql.cfg": txt}, workers=2, timeout=900, record=False, expect_violation=True)
+            ctx.tlc, "RRQueueMC", "vac_ql.cfg", files={"vac_ql.cfg": txt}, workers=2, timeout=3000, record=False,
+            expect_violation=True, heap=H)
 
-    r = {k: f.result() for k, f in jobs.items()}
-    for k in ("qmc", "smc", "qlive", "slive", "qlive2", "qbeh", "qsim", "sbeh", "ssim"):
-        if k in r:
-            ctx.require_model_ok(r[k], k)
-    ctx.ev.set("exhaustive", True)
-    for (mod, bug, inv), f in vac.items():
-        v = f.result().violated
-        ok = v is not None and (inv is None or v == "invariant:" + inv or v == inv)
-        if not ok:
-            raise Infra("vacuity: %s with Bug=%s should violate %s, TLC says %s" % (mod, bug, inv, v))
-    if vac:
-        ctx.ev.set("vacuity_variants_caught", len(vac))
+    need = ("qbuild", "sbuild", "qbeh", "qsim", "sbeh", "ssim")
+    r = {k: jobs[k].result() for k in need}
+    for k in need[2:]:
+        ctx.require_model_ok(r[k], k)
 
     # ---------------------------------------------------------------- 2. drive the real code
-    nq, ns = (6000, 6000) if th else (1200, 1200)
+    nq, ns = (4000, 4000) if th else (900, 900)
     qbehs = pick(r["qbeh"].behaviours, nq, rnd) + pick(r["qsim"].behaviours, nq // 3, rnd)
     sbehs = pick(r["sbeh"].behaviours, ns, rnd) + pick(r["ssim"].behaviours, ns // 3, rnd)
-    nrand = 1500 if th else 250
-    fq = pool.submit(drive, ctx, "queue", QPKG, "TestVerifC29Queue", qbehs, nrand)
-    fs = pool.submit(drive, ctx, "sem", SPKG, "TestVerifC29Sem", sbehs, nrand)
+    nrand = 1000 if th else 200
+    dpool = ThreadPoolExecutor(max_workers=2)     # code-facing jobs do not queue behind the model-only ones
+    fq = dpool.submit(drive, ctx, "queue", QPKG, "TestVerifC29Queue", qbehs, nrand)
+    fs = dpool.submit(drive, ctx, "sem", SPKG, "TestVerifC29Sem", sbehs, nrand)
     qres, sres = fq.result(), fs.result()
 
     for which, res, behs in (("queue", qres, qbehs), ("sem", sres, sbehs)):
@@ -195,14 +195,27 @@ def run(ctx):
             ctx.ev.sample(s)
 
     # ---------------------------------------------------------------- 3. validate the recorded executions
-    parts = 6 if th else 3
-    fa = pool.submit(validate, ctx, pool2(), "queue", "RRQueueTrace", qres["files"][0], parts)
-    fb = pool.submit(validate, ctx, pool2(), "sem", "WSemTrace", sres["files"][0], parts)
+    parts = 4 if th else 2
+    fa = dpool.submit(validate, ctx, pool2(), "queue", "RRQueueTrace", qres["files"][0], parts)
+    fb = dpool.submit(validate, ctx, pool2(), "sem", "WSemTrace", sres["files"][0], parts)
     qa, sa = fa.result(), fb.result()
     ctx.ev.add_impl("queue: recorded runs of the real Queue accepted by RRQueueTrace", qa, steps=qres.get("steps"),
                     random_concurrent=(qres.get("counters") or {}).get("random_runs", 0))
     ctx.ev.add_impl("sem: recorded runs of the real Weighted accepted by WSemTrace", sa, steps=sres.get("steps"),
                     random_concurrent=(sres.get("counters") or {}).get("random_runs", 0))
+    # ---------------------------------------------------------------- 4. the model-only jobs
+    for k, f in jobs.items():
+        if k not in need:
+            ctx.require_model_ok(f.result(), k)
+    ctx.ev.set("exhaustive", not selftest)
+    for (mod, bug, inv), f in vac.items():
+        v = f.result().violated
+        ok = v is not None and (inv is None or v == "invariant:" + inv or v == inv)
+        if not ok:
+            raise Infra("vacuity: %s with Bug=%s should violate %s, TLC says %s" % (mod, bug, inv, v))
+    if vac:
+        ctx.ev.set("vacuity_variants_caught", len(vac))
+
     pool.shutdown(wait=False)
 
     ctx.ev.assume("hooks (build tag verif) mark the linearization points under q.mx / s.mu; the harness reads the "
@@ -218,6 +231,6 @@ _p2 = []
 
 
 def pool2():
-    p = ThreadPoolExecutor(max_workers=6)
+    p = ThreadPoolExecutor(max_workers=2)
     _p2.append(p)
     return p
